@@ -46,6 +46,14 @@ Theorem C19_pool_invariant : forall (Loc Glob : Type) (P : tid -> prog Loc Glob)
 Proof. exact pool_invariant. Qed.
 Print Assumptions C19_pool_invariant.
 
+(* no leak: when every goroutine has finished, every buffer ever created is pooled again *)
+Theorem C19_pool_no_leak : forall (Loc Glob : Type) (P : tid -> prog Loc Glob) l0 G warm,
+  (forall t, disciplined (P t) = true) ->
+  forall sc, let g := run sc (ginit P l0 G warm) in
+    (forall t, pc (th g t) = PDone) -> forall b, b < next g -> In b (pool g).
+Proof. exact pool_no_leak. Qed.
+Print Assumptions C19_pool_no_leak.
+
 (* no data race on buffers: nobody is ever about to dereference a pooled buffer, and
    no two goroutines are ever about to dereference the same buffer *)
 Theorem C19_pool_race_free : forall (Loc Glob : Type) (P : tid -> prog Loc Glob) l0 G warm,
